@@ -601,3 +601,34 @@ var phl1 = func(a int) int {
 	}
 	return x
 }
+
+// CLoop is a loop whose back edge comes from behind the first 13 bytes and lands inside them: goom cannot relocate its
+// prologue into an origin placeholder and refuses an apply that asks for one
+//
+//go:noinline
+func CLoop(n int) int {
+	for n > 0 {
+		n -= 3
+	}
+	return n
+}
+
+var phl2 = func(a int) int {
+	x := a
+	for i := 0; i < len(sink); i++ {
+		x = x*31 + i
+		sink[i&7] += x
+		if x&1 == 0 {
+			x ^= sink[(i+1)&7]
+		} else {
+			x += sink[(i+3)&7] * 7
+		}
+		sink[(i+5)&7] -= x >> 3
+		if x%7 == 3 {
+			x = x*x + sink[(i+2)&7]
+		}
+		sink[(i+6)&7] ^= x << 2
+		x += sink[(i+4)&7]*13 - sink[(i+7)&7]*17
+	}
+	return x
+}
